@@ -42,6 +42,9 @@ def run(tier, replay=None):
     rep.floor('LanguageIdentifier::minimize bodies', len(m), 1)
     rep.count('minimize decision paths / trial forms', '%d / %d' % (res['paths'], res['trials']))
     rep.floor('minimize decision paths', res['paths'], 20)
+    # values built by the compile-time macros belong to this property's domain as well: the macro witnesses of C16 (cached per tree)
+    from . import c16
+    c16.witness_family(rep, tier)
     rep.explanation = ('Structural obligations S1-S7 of DESIGN §4.8 read from the MIR of likelysubtags::minimize (maximize kept as an uninterpreted pure function): '
                        'max := input if full else maximize(input)?; trials (l), (l,r), (l,s) over components of max only, in that order; a form is returned only under '
                        'maximize(form) == Some(max) and is exactly the trial; "unchanged" only after all trials failed; the method writes only language/script/region. '
